@@ -16,6 +16,11 @@ def _case(scripts, cache, cfg):
     return dict(scripts=[s.hex() for s in scripts], cache=tsh.cache_str(cache, False), cfg=cfg.to_json())
 
 
+def _norm_label(label):
+    import re
+    return re.sub(r'byte [0-9a-f#]{1,2}', 'byte #', re.sub(r'[0-9a-f]{6,}', '#', re.sub(r'[+-]?\d+', '#', label)))[:100]
+
+
 def fam_task(task):
     """task = (family name, seed, rounds)"""
     name, seed, rounds = task
@@ -40,7 +45,16 @@ def fam_task(task):
             viol.append(d)
     history = []          # (label, scripts, cache, cfg, first result) for the history-independence replay
     for _ in range(rounds):
-        for sc in fam(rng):
+        try:
+            scs = fam(rng)
+        except Exception as e:
+            # the scenarios are built with the real builders / helper classes on valid inputs: a raise there is itself a failing input
+            import traceback
+            stats['scenario-construction-raised'] += 1
+            add_viol(dict(what='building the %s scenarios with the real builders on valid inputs raised %s: %s | %s' %
+                          (name, type(e).__name__, str(e)[:200], ' <- '.join(l.strip() for l in traceback.format_exc().splitlines()[-8:])[:900])))
+            continue
+        for sc in scs:
             if sc[0] == 'MT':           # model command with the implementation's expected answer
                 n += 1
                 stats['classes-vs-model:' + sc[1].split(' ', 1)[0]] += 1
@@ -54,7 +68,7 @@ def fam_task(task):
             finding = sc[5] if len(sc) > 5 else None
             explog = sc[6] if len(sc) > 6 else None
             n += 1
-            labels[label.split(' ')[0].split(':')[0]] += 1
+            labels[_norm_label(label)] += 1
             if scripts is None:
                 stats['direct'] += 1
                 if not exp:
@@ -593,6 +607,31 @@ def c02_task(task):
     dis, viol, samples = [], [], []
     digests = set()
     cfg = tsh.Cfg()
+    # "all single-bit corruptions of key / signature / covered field": one honest (key, signature, fields) triple per task, every
+    # bit of the key, of the 64 signature bytes and of a covered field flipped in turn — CHECK_SIG must not answer true
+    k0 = rng.randrange(len(SEEDS))
+    sf0 = {'sigfield1': bytes(rng.getrandbits(8) for _ in range(5)), 'sigfield3': bytes(rng.getrandbits(8) for _ in range(3))}
+    sig0 = tsh.SigningKey(SEEDS[k0]).sign(msg_spec(0, sf0)).signature
+
+    def accepted(sig_, key_, cache_):
+        try:
+            _, st_, _ = tsh.F.run_script(push(sig_) + push(key_) + op('CHECK_SIG') + b'\x00', dict(cache_))
+            return st_.get() == b'\xff'
+        except BaseException:
+            return False
+    stats['bit-sweep: honest accepted'] += accepted(sig0, PUBS[k0], sf0)
+    bad = [] if accepted(sig0, PUBS[k0], sf0) else ['honest triple rejected']
+    for nm_, v_ in (('key', PUBS[k0]), ('signature', sig0), ('sigfield1', sf0['sigfield1'])):
+        for bit in range(len(v_) * 8):
+            w_ = bytearray(v_); w_[bit // 8] ^= 1 << (bit % 8); w_ = bytes(w_)
+            stats['bit-sweep'] += 1
+            if accepted(w_ if nm_ == 'signature' else sig0, w_ if nm_ == 'key' else PUBS[k0], dict(sf0, sigfield1=w_) if nm_ == 'sigfield1' else sf0):
+                bad.append('%s bit %d' % (nm_, bit))
+    if bad:
+        stats['direct-fail'] += 1
+        viol.append(dict(what='single-bit corruption accepted by CHECK_SIG: %s (key %s, signature %s, sigfield1 %s, sigfield3 %s)' %
+                         (bad[:6], PUBS[k0].hex(), sig0.hex(), sf0['sigfield1'].hex(), sf0['sigfield3'].hex()),
+                         case=dict(key=PUBS[k0].hex(), signature=sig0.hex(), cache=tsh.cache_str(sf0, False))))
     for it in range(n):
         present = rng.getrandbits(8) if rng.random() < 0.7 else rng.choice([0, 1, 0xff, 3])
         cache = {'sigfield%d' % i: bytes(rng.getrandbits(8) for _ in range(rng.choice([0, 1, 3, 9])))
